@@ -33,7 +33,7 @@ type c12Spec struct {
 	Sched string `json:"sched,omitempty"` // none | perturb | reverse
 }
 
-var c12Shapes = []string{"ctx-reuse", "edited", "periodic", "random", "reversed", "new<<old", "old<<new", "new-empty", "old-empty", "old<parts", "new<parts", "big-edited"}
+var c12Shapes = []string{"ctx-reuse", "small-alphabet", "dupseg", "phase-shift", "edited", "periodic", "random", "reversed", "new<<old", "old<<new", "new-empty", "old-empty", "old<parts", "new<parts", "big-edited"}
 
 func c12Cases(tier string, seed uint64, flavor string) []lib.Case {
 	var cases []lib.Case
@@ -312,7 +312,43 @@ func c12Rand(s c12Spec, res *lib.Result) {
 		}
 		return out
 	}
+	smallAlpha := func(n, alpha int) []byte {
+		b := make([]byte, n)
+		for i := range b {
+			b[i] = byte('a' + r.Intn(alpha))
+		}
+		return b
+	}
 	switch s.Shape {
+	case "small-alphabet": // self-similar input over 2-3 letters, far longer than the exhaustive part reaches
+		old = smallAlpha(r.PickInt([]int{10, 30, 69, 200, 1000, 5000}), r.Range(2, 3))
+		nw = editCopy(old)
+		if r.Bool() {
+			nw = append(nw[r.Intn(len(nw)/2+1):], smallAlpha(r.Range(0, 40), 2)...)
+		}
+	case "dupseg": // a segment present twice in old (second copy altered near its start), middle dropped in new
+		A, S, X, B := mk(r.Range(10, 3000)), mk(r.Range(20, 5000)), mk(r.Range(5, 2000)), mk(r.Range(10, 3000))
+		S2 := append([]byte(nil), S...)
+		for k := 0; k < r.Range(1, 4); k++ {
+			S2[r.Intn(min(len(S2), 40))] ^= byte(1 + r.Intn(250))
+		}
+		old = append(append(append(append(append([]byte(nil), A...), S...), X...), S2...), B...)
+		nw = append(append(append([]byte(nil), A...), S...), B...)
+		if r.Bool() {
+			nw = append(append(append([]byte(nil), A...), S2...), B...)
+		}
+	case "phase-shift": // periodic data with a phase shift and point mutations
+		per := r.PickInt([]int{2, 3, 5, 7, 31, 255})
+		pat := smallAlpha(per, 3)
+		n := r.PickInt([]int{50, 500, 5000, 50000})
+		old = make([]byte, n)
+		for i := range old {
+			old[i] = pat[i%per]
+		}
+		nw = append(append([]byte(nil), old[r.Range(1, per):]...), old[:r.Range(0, per)]...)
+		for k := 0; k < r.Range(0, 5); k++ {
+			nw[r.Intn(len(nw))] ^= 1
+		}
 	case "edited":
 		old = mk(size(max))
 		nw = editCopy(old)
